@@ -375,6 +375,23 @@ class FullCheck(BaseCheck):
       env.advance(0.1)
       w.ss.leave(*keep)
       env.advance(1.0)
+    if kind == 'mux' and idx % 7 == 6 and (not scripted or w.ss.truth):
+      # slow calls that are outstanding across the transport's keep-alive pings (one every 30-40 s), with
+      # further calls issued after a ping was answered and before the slow replies arrive
+      classes.add('calls-outstanding-across-keepalive-pings')
+      for s_ in w.servers:
+        s_.sim.mode = 'up'
+      env.advance(2.0)
+      for _k in range(rng.choice([3, 8])):
+        cid = len(w.calls)
+        forced[cid] = 47.0 + rng.random() * 5
+        w.call('echo', ('c%d-%d' % (cid, rng.getrandbits(20)),), timeout=120.0)
+      env.advance(42.0)
+      for _k in range(rng.choice([3, 8])):
+        cid = len(w.calls)
+        forced[cid] = 0.5 + rng.random() * 12
+        w.call('echo', ('c%d-%d' % (cid, rng.getrandbits(20)),), timeout=120.0)
+      env.advance(20.0)
     # quiet tail: no stimulus, long enough for every deadline, late reply and retry
     tmax = max([r['T'] for r in w.calls] or [1.0])
     for s in w.servers:
